@@ -283,6 +283,14 @@ def get_trig_moment_c(cx):
         ex.need(st, vals[0] != 0, 'derivative-of-closed-form-away-from-0@0', 'safety')
         return VR(DCF(toint(r.get('order')), vals[0]))
     cx.call('xreplace', xreplace, trusted='sympy diff(cf(t), t, p).xreplace({t: a}) = p-th derivative of cf at a, for a != 0')
+    def assign_hook(ex, st, node, v):
+        # the frequency-0 term of the product-to-sum expansion: the k-th derivative of the characteristic function at 0 is  i**k * E(X**k)  (1 for k = 0)
+        if len(node.targets) == 1 and isinstance(node.targets[0], ast.Name) and node.targets[0].id == 'cf_term' and 'arg' in st.vars and 'id_power' in st.vars:
+            arg_, idp = toint(st['arg']), toint(st['id_power'])
+            ex.need(st, z3.Implies(arg_ == 0, z3.If(idp > 0, toreal(v) == POW(IU, idp) * MOM(idp), toreal(v) == 1)) if v.kind in ('real', 'num', 'int') else z3.BoolVal(True),
+                    'frequency-0-term.is-i^k-times-the-moment@0', 'ensures')
+    import ast
+    cx.set_hook('assign_hook', assign_hook)
     cx.invariant(0, lambda st: z3.BoolVal(True)); cx.invariant(1, lambda st: z3.BoolVal(True))
     cx.ensures(lambda st, r: z3.BoolVal(True))
     cx.replay = dict(kind='trig_moment_at_zero')
